@@ -376,10 +376,20 @@ def job_frame(cfg):
     identity_check(res, Can, want, pcs, f"{label} Anisotropic law with rotated axes = rotated tensor", replay, tol=TOL * 100)
     res.samples.append({"config": label, "obligation": "for all symmetric C (21 symbolic entries): |Apply_Pmat(P, C)[I,J] - (Q x Q x Q x Q : C)[I,J]| <= 1e-9 (QF_LRA)"})
     # axes of any length give the law of the unit axes (through the public constructors)
-    for scale in (2.0, 0.25):
-        with facade.symbolic():
-            an_s = Models.Elastic.Anisotropic(3, Cm, useVoigtNotation=False, axis1=af1 * scale, axis2=af2 * (scale + 1))
-            Cs = an_s.C
+    for scale in (2.0, 0.25, 1000.0):
+        try:
+            with facade.symbolic():
+                an_s = Models.Elastic.Anisotropic(3, Cm, useVoigtNotation=False, axis1=af1 * scale, axis2=af2 * (scale + 1))
+                Cs = an_s.C
+        except AssertionError as e:  # perpendicular axes of that length refused: 'axes of any length' is violated by a raise, recorded and replayed
+            def replay_len(env, scale=scale):
+                try:
+                    Models.Elastic.Anisotropic(3, farr(c, env, Cm), useVoigtNotation=False, axis1=af1 * scale, axis2=af2 * (scale + 1))
+                    return False, {}
+                except AssertionError as e2:
+                    return True, {"axis1": (af1 * scale).tolist(), "axis2": (af2 * (scale + 1)).tolist(), "dot_product_over_norms": float((af1 @ af2) / (np.linalg.norm(af1) * np.linalg.norm(af2))), "raised": repr(e2)[:200]}
+            res.record(f"{label} axes scaled by {scale} give the same law", Outcome("cex", env=dict(c.shadow), how="structure", detail=repr(e)[:100]), replay_len, key=f"{label} axes scaled by {scale} give the same law")
+            continue
         identity_check(res, Cs, Can, c.pc_since(mark), f"{label} axes scaled by {scale} give the same law", replay, tol=TOL * 100)
     o = prove_abs_le(as_sym(Cg[0, 0]) - as_sym(want[1, 1]) - 1, TOL, pcs, "twin")
     res.twin(f"{label} twin", o.status == "cex")
